@@ -280,6 +280,9 @@ type DnsWorld struct {
 func newDnsWorld(w *World, chans server.Channels) (*DnsWorld, error) {
 	d := &DnsWorld{W: w, Comm: &memServerComm{}, Path: &w.Opt.DnsPath}
 	d.Lis = sdns.NewServerDnsListener(DnsDomain, d.Comm)
+	if w.Opt.DnsRaw {
+		return d, nil
+	}
 	if w.Opt.RealLoop == "dns" {
 		ds := server.NewDnsServer()
 		ds.ServerConfig = w.SrvCfg
